@@ -1,6 +1,6 @@
 SPECIFICATION GSpec
 CONSTANTS Keys = {"a", "b"}
-          NReq = 3
+          NReq = 2
           NProv = 1
           Devs = {}
           MipSet = {1}
@@ -11,6 +11,7 @@ CONSTANTS Keys = {"a", "b"}
           MaxArgs = {0}
           DialSet = {"ok", "fail"}
           AllowClose = TRUE
-          D = 6
+          D = 4
+          Ops = {"Call", "Emit", "Dial", "End", "Cancel", "Drain", "Tick", "Close"}
 INVARIANTS GEmit GAllClosed
 CHECK_DEADLOCK FALSE
